@@ -132,8 +132,49 @@ def stored(inst):
     return any(inst is s for s in xtuml.get_metaclass(inst).storage)
 
 
+_loaders = {}
+
+
+def traced_loader(op, fn):
+    """ModelLoader.input / build_metamodel: outcome and number of accumulated statements (LoadIO.tla)"""
+    import xtuml
+
+    @functools.wraps(fn)
+    def wrapper(self, *args, **kwargs):
+        if _depth[0] > 0 or not os.environ.get('PYXTUML_VERIF_TRACE'):
+            return fn(self, *args, **kwargs)
+        _depth[0] += 1
+        res = 'accepted' if op == 'input' else 'built'
+        try:
+            try:
+                return fn(self, *args, **kwargs)
+            except xtuml.ParsingException:
+                res = 'ParsingException'
+                raise
+            except xtuml.MetaException:
+                res = 'MetaException'
+                raise
+            except BaseException as e:
+                res = 'PY:' + type(e).__name__
+                raise
+        finally:
+            _depth[0] -= 1
+            try:
+                key = self.__dict__.get('_verif_key')       # (not id(self): addresses are reused)
+                if key is None:
+                    _loaders['n'] = _loaders.get('n', 0) + 1
+                    key = self.__dict__['_verif_key'] = '%d.L%d' % (os.getpid(), _loaders['n'])
+                emit({'op': 'Input' if op == 'input' else 'Build', 'loader': key, 'res': res,
+                      'n': len(getattr(self, 'statements', [])), 'twin': True})
+            except Exception as e:
+                emit({'op': 'TracerError', 'where': op, 'err': '%s: %s' % (type(e).__name__, e)})
+    return wrapper
+
+
 def traced(op, fn):
     import xtuml
+    if op in ('input', 'build'):
+        return traced_loader(op, fn)
 
     @functools.wraps(fn)
     def wrapper(*args, **kwargs):
